@@ -199,3 +199,50 @@ Example C06_validation_nonvacuous :
   calibrate_stored (fun _ => false) = (7%nat, 1) /\ calibrate (fun _ => false) = (7%nat, 0) /\
   calibrate_stored (fun k => Nat.even k) = (7%nat, 85).
 Proof. repeat split; vm_compute; reflexivity. Qed.
+
+(* follow-up (round 3, /repo ac09377): a cold fit rejected for its switching-point parameters
+   (full_fraction outside (0,1] / not a real, n_trial_calculation not a positive integer) leaves the
+   WHOLE object unchanged, from any state *)
+Theorem C06_session_rejected_fit_keeps_state :
+  forall s X ff nt br i0 p e,
+    ff_check ff nt = Some e -> sess_step s (VColdFF X ff nt br i0 p) = (s, false).
+Proof. exact sess_rejected_keeps_state. Qed.
+Print Assumptions C06_session_rejected_fit_keeps_state.
+
+(* ... so "fitted object -> rejected cold fit (on any data X') -> parameter corrected -> warm start"
+   continues plain FPS on the data of the last accepted cold fit *)
+Theorem C06_session_rejected_then_warm :
+  forall s g2 X d X' ff nt br' i0 p' e br p k,
+    dims d X -> shape_ok X = true -> resolve_n (length X) p = Some k ->
+    sess_inv X s g2 -> (length (sel g2) <= k)%nat -> ff_check ff nt = Some e ->
+    let s1 := fst (sess_step s (VColdFF X' ff nt br' i0 p')) in
+    snd (sess_step s1 (VWarm X br p)) = true /\
+    sess_inv X (fst (sess_step s1 (VWarm X br p))) (fst (fps_run X None NoThr k g2)).
+Proof. exact sess_rejected_then_warm. Qed.
+Print Assumptions C06_session_rejected_then_warm.
+
+(* with accepted switching-point parameters VColdFF is the ordinary cold fit *)
+Theorem C06_session_coldff_accepted :
+  forall s X ff nt br i0 p,
+    ff_check ff nt = None -> sess_step s (VColdFF X ff nt br i0 p) = sess_step s (VCold X br i0 p).
+Proof. exact sess_coldff_accepted. Qed.
+Print Assumptions C06_session_coldff_accepted.
+
+(* non-vacuity: fit 3 of 7 clustered points, a refit with full_fraction = 2 is rejected, the parameter
+   is corrected and the object warm-started to 5: plain FPS's 5 selections, pruning was active (sparse
+   branch forced), and the rejected call changed nothing; same with n_trial_calculation = 0 *)
+Example C06_rejected_fit_nonvacuous :
+  let X1 := [[0;0];[1;0];[0;1];[100;100];[101;100];[100;101];[50;0]] in
+  let X2 := [[3;3];[40;41];[2;3];[41;41];[3;2];[40;40];[90;0]] in
+  let sp := fun _ _ => false in
+  let s0 := sess_run None [VCold X1 sp 0 (NtsInt 3)] in
+  let s1 := sess_run s0 [VColdFF X2 (FFReal 2 1) (NTInt 4) sp 1 (NtsInt 4)] in
+  let s2 := sess_run s1 [VWarm X1 sp (NtsInt 5)] in
+  ff_check (FFReal 2 1) (NTInt 4) = Some EValueError /\ ff_check FFNone (NTInt 0) = Some EValueError /\
+  ff_check FFNone NTOther = Some ETypeError /\
+  option_map sel s1 = option_map sel s0 /\ option_map (fun g => o_vloc (sst g)) s1 = Some [0; 0; 0; 1; 1; 1; 2]%nat /\
+  option_map sel s2 = Some (sel (fst (fps_fit X1 None [0%nat] NoThr 5))) /\
+  option_map sel s2 = Some [0; 4; 6; 5; 1]%nat /\
+  option_map sel (sess_run s0 [VColdFF X2 FFNone (NTInt 0) sp 1 (NtsInt 4); VWarm X1 sp (NtsInt 5)])
+    = Some [0; 4; 6; 5; 1]%nat.
+Proof. cbv zeta. repeat split; vm_compute; reflexivity. Qed.
